@@ -219,6 +219,12 @@ def run_save(case, plan=None, log=None, hooks=None, fs=None, only_warmup=False):
     if only_warmup or r.exc is not None:
         sim.dispose()
         return r
+    if case.get('fork_before_enter'):
+        # the saver was constructed before a fork (a module-level saver in a pre-forking server, a daemonising
+        # process) and is used, for the whole with-block, by the child
+        sim.pid = 4243
+        if log is not None:
+            log.add('fork', sim.pid)
     if case.get('chdir') == 'before_enter':
         fs.cwd = OTHER_CWD           # the process changes its working directory (a daemon's chdir('/'))
         if log is not None:
@@ -408,6 +414,8 @@ def gen_workload(rng, faults=False):
         case['ctx'] = 'handler'     # the save is made while another exception is being handled
     if rng.random() < 0.15:
         case['entry'] = 'class'     # AtomicSaver(...) instead of atomic_save(...)
+    if rng.random() < 0.04:
+        case['fork_before_enter'] = True
     if rng.random() < 0.3:
         case['omit_defaults'] = True    # keyword arguments equal to the documented defaults are not passed
     if faults and case['dest_rel'] and rng.random() < 0.3:
